@@ -7,7 +7,7 @@ PID = "C16"
 MANIFEST = {
     "text": "Theorems about the closures obtained by loading the GENERATED text of prelude.lisp with the model reader and evaluator inside Coq: the prelude loads without error (kernel computation), and for ALL operand forms X, Y the control macros and / or / when / not, apply, throw and the catch / catch-all clauses of try expand to the documented forms, the list functions length, range, foldl, reverse, map, zip, last, init and foldr are proved for EVERY list - any length, any elements, and for foldl and map every function whose applications evaluate - by induction over the list through the evaluator's tail-call rules, with the result AND the fact that the loop runs at the depth it was called at (fuel linear in the length); get-property-safe (through which every catch clause reads the kind of a signal) returns for EVERY key and EVERY value what the primitive . returns and nil whenever . signals, and and / or / when / not expand to conditionals in which each operand occurs exactly where and as often as the documentation implies (each operand evaluated at most once, the second only when needed) - proved by symbolic evaluation of the macro bodies through the derived evaluator rules. A change of prelude.lisp regenerates the text and the loaded closures, so either the computed closure no longer matches the lemma about its body or the theorem fails. The list functions (map foldl foldr reverse zip length enumerate range append concat last init apply), the variadic arithmetic and comparisons are tied to their documented results by generated calls (lists of length 0..60 of mixed elements, native / closure / variadic / fixed-arity / signalling function arguments, operands with output side effects) run in the model and on the binary and checked against independent specification functions.",
     "note": "The 'for every list' statements are theorems for length, range, foldl, reverse, map, zip, last, init and foldr; for enumerate, append, concat, apply and the variadic arithmetic they are validated by the differential check and the specification monitors (lists up to 20000 elements), not proved. Trusted: Coq kernel; transcription of the evaluator; prelude text generated from the source.",
-    "technique": "Coq symbolic evaluation of prelude macro bodies for all operands + kernel computation on the generated prelude + differential check against specification functions",
+    "technique": "Coq symbolic evaluation of the generated prelude text: macro bodies for all operands; list functions by induction over the list through loop-level evaluator rules (result and constant depth) + kernel computation on the generated prelude + differential check against specification functions incl. lists far beyond the recursion limit",
 }
 TARGETS = ["Properties/C16.v", "Eval/PreludeState.v"]
 IMPORTS = ["Eval.EvalRules", "Eval.PreludeState", "Eval.PreludeProofs", "Eval.CatchProofs", "Eval.MacroProofs2", "Eval.LengthProofs", "Eval.RangeProofs", "Eval.FoldProofs", "Eval.MapProofs", "Eval.ZipProofs", "Eval.LastProofs", "Eval.InitProofs", "Eval.FoldrProofs", "Properties.C16"]
